@@ -91,6 +91,7 @@ fn main() {
         "C15" => props::c15::run(tier),
         "C16" => props::c16::run(tier),
         "C17" => props::c17::run(tier),
+        "C18" => props::c18::run(tier),
         _ => {
             eprintln!("unknown check {id}");
             2
